@@ -317,7 +317,7 @@ impl Prop for C09 {
     }
     fn strategy(&self, _tier: Tier) -> BoxedStrategy<Case> {
         let delay = prop_oneof![Just(4u16), Just(6u16), Just(144u16), Just(2016u16), 4u16..2017];
-        (any::<bool>(), any::<bool>(), delay.clone(), delay, prop_oneof![1 => sweep_strat(), 1 => htlc_strat()], prop::bool::weighted(0.12), prop_oneof![5 => Just(0u8), 2 => 1u8..7], prop::bool::weighted(0.4), prop_oneof![40 => Just(None), 1 => (0u8..4, 0u8..3).prop_map(Some)])
+        (any::<bool>(), any::<bool>(), delay.clone(), delay, prop_oneof![1 => sweep_strat(), 1 => htlc_strat()], prop::bool::weighted(0.12), prop_oneof![5 => Just(0u8), 2 => 1u8..13], prop::bool::weighted(0.4), prop_oneof![40 => Just(None), 1 => (0u8..4, 0u8..3).prop_map(Some)])
             .prop_map(|(anchors, outbound, holder_delay, cp_delay, req, carve_out, allow_edit, onchain, startup)| Case { startup, onchain, anchors, outbound, holder_delay, cp_delay, carve_out: carve_out && matches!(req, Req::Sweep { .. }), allow_edit: if matches!(req, Req::Sweep { .. }) { allow_edit } else { 0 }, req })
             .boxed()
     }
@@ -369,7 +369,7 @@ impl Prop for C09 {
         if case.allow_edit != 0 {
             let absent = Address::p2wpkh(&CompressedPublicKey(PublicKey::from_secret_key(&secp, &SecretKey::from_slice(&[0x3c; 32]).unwrap())), net);
             allowlisted_now = crate::world::allowlist_edit(&mut w, &format!("address:{}", allow_addr), &format!("address:{}", absent), case.allow_edit);
-            st.class(format!("allowlist_edit:{}", case.allow_edit % 7));
+            st.class(format!("allowlist_edit:{}", crate::world::allowlist_edit_label(case.allow_edit)));
         }
         let chan = &w.chans[ci];
         let features = chan.setup.features();
